@@ -114,6 +114,13 @@ func c16(r *report.Run) {
 		}
 		cases = sel
 	}
+	// handwritten shapes the generated family does not contain: one struct type reached along two embedding paths
+	// of equal depth (a diamond), the same with an own field on top, and a struct embedding a pointer to itself
+	cases = append(append([]c16types.Case{}, cases...),
+		c16types.Case{Name: "C16Diamond", Decl: "struct{ C16L{C16Base}; C16R{*C16Base} }", Value: C16Diamond{C16L{C16Base{1, "y"}}, C16R{&C16Base{2, "z"}}}, Ptr: &C16Diamond{C16L{C16Base{1, "y"}}, C16R{&C16Base{2, "z"}}}},
+		c16types.Case{Name: "C16DiamondOwn", Decl: "struct{ C16L{C16Base}; C16R{*C16Base}; X string }", Value: C16DiamondOwn{C16L{C16Base{1, "y"}}, C16R{&C16Base{2, "z"}}, "own"}, Ptr: &C16DiamondOwn{C16L{C16Base{1, "y"}}, C16R{&C16Base{2, "z"}}, "own"}},
+		c16types.Case{Name: "C16SelfEmbed", Decl: "struct{ *C16SelfEmbed; X int }", Value: C16SelfEmbed{nil, 3}, Ptr: &C16SelfEmbed{nil, 3}},
+	)
 	var evals, accepted int64
 	var mu sync.Mutex
 	classes := map[string]bool{}
@@ -420,3 +427,23 @@ func c16SpecialNames(r *report.Run, evals *int64) {
 }
 
 type c16Inner struct{ Label string }
+
+type C16Base struct {
+	X int
+	Y string
+}
+type C16L struct{ C16Base }
+type C16R struct{ *C16Base }
+type C16Diamond struct {
+	C16L
+	C16R
+}
+type C16DiamondOwn struct {
+	C16L
+	C16R
+	X string
+}
+type C16SelfEmbed struct {
+	*C16SelfEmbed
+	X int
+}
